@@ -463,22 +463,40 @@ def reference_dump(fs, basic, user, name, limit):
         return exts
 
     top = data(name)
-    with theory.fresh_theory():
-        for m in order_of(name):
-            for e in contribution(m):
+    try:
+        own = []
+        with theory.fresh_theory():
+            # scratch theory: parsing happens here (Datatype.parse adds its type to the current theory even when
+            # the item then turns out to have an error); only the extensions of error-free items count
+            for m in order_of(name):
+                for e in contribution(m):
+                    theory.thy.unchecked_extend(e)
+            if limit != 'start':
+                found = False
+                for it in top['content']:
+                    if limit and it.get('ty') == limit[0] and it.get('name') == limit[1]:
+                        found = True
+                        break
+                    obj = items.parse_item(it)
+                    if obj.error is None:
+                        e = obj.get_extension()
+                        theory.thy.unchecked_extend(e)
+                        own.append(e)
+                if limit and not found:
+                    raise RefError('limit %s not found' % (limit,))
+        with theory.fresh_theory():
+            for m in order_of(name):
+                for e in contribution(m):
+                    theory.thy.unchecked_extend(e)
+            for e in own:
                 theory.thy.unchecked_extend(e)
-        if limit != 'start':
-            found = False
-            for it in top['content']:
-                if limit and it.get('ty') == limit[0] and it.get('name') == limit[1]:
-                    found = True
-                    break
-                obj = items.parse_item(it)     # (parsing a datatype item already touches the theory)
-                if obj.error is None:
-                    theory.thy.unchecked_extend(obj.get_extension())
-            if limit and not found:
-                raise RefError('limit %s not found' % (limit,))
-        return canon_dump(theory.thy)
+            return canon_dump(theory.thy)
+    except RefError:
+        raise
+    except Exception as e:
+        # the files describe something the theory machinery itself refuses (e.g. a constant declared twice after
+        # an edit): an error is the expected outcome
+        raise RefError('not loadable: %s: %s' % (type(e).__name__, str(e)[:120]))
 
 
 # ---------------------------------------------------------------- execution
@@ -885,7 +903,7 @@ def _v_no_restore():
     inside the caller's fresh_theory block and theory.thy is not restored afterwards"""
     from holsim.seams import patch_source
     patch_source(_b(), 'load_theory_cache', "theory.thy = prev_thy", "pass")
-    patch_source(_b(), 'load_theory_cache', "        for prev_name in depend_list:\n            load_theory_cache(prev_name, username)\n", "        pass\n")
+    patch_source(_b(), 'load_theory_cache', "    for prev_name in depend_list:\n        load_theory_cache(prev_name, username)\n", "    pass\n")
     patch_source(_b(), 'load_theory_cache', "    import_stamps = [(prev_name, theory_cache[username][prev_name]['timestamp'])\n                     for prev_name in depend_list]\n", "    import_stamps = []\n")
     patch_source(_b(), 'load_theory_cache', "            prev_cache = theory_cache[username][prev_name]\n", "            prev_cache = load_theory_cache(prev_name, username)\n            import_stamps.append((prev_name, prev_cache['timestamp']))\n")
 
@@ -897,13 +915,14 @@ def _v_stale_dep():
 
 def _v_stale_imports():
     from holsim.seams import patch_source
-    patch_source(_b(), 'load_theory_cache', "    cache['imports'] = data['imports']\n", "")
+    patch_source(_b(), 'get_imports', "if cache.get('imports_timestamp') != timestamp:", "if False:")
 
 
 def _v_ts_before():
     from holsim.seams import patch_source
-    patch_source(_b(), 'load_theory_cache', "    # Read the file first: its list of imports may have changed.\n",
-                 "    cache['timestamp'] = timestamp\n    cache.setdefault('import_stamps', [])\n    cache.setdefault('content', [])\n")
+    patch_source(_b(), 'load_theory_cache', "    data = load_json_data(filename, username)\n    depend_list = get_import_order(",
+                 "    cache['timestamp'] = timestamp\n    cache.setdefault('import_stamps', [])\n    cache.setdefault('content', [])\n"
+                 "    data = load_json_data(filename, username)\n    depend_list = get_import_order(")
 
 
 def _v_topo_user():
